@@ -187,3 +187,50 @@ Definition loop_case (c : (Z * Z * Z) * bool * bool * Z * Z * list (Z * Z * bool
   let '(mx, b, cp) := r in
   let rc := {| rc_max := mx; rc_base := b; rc_cap := cp; rc_jitter := 0 |} in
   map enc_call (run_items ub bs (Z.to_nat mb) (Z.to_nat stop) (map (mk_item rc) xs) []).
+
+(** * The attempt records of a micro-batch
+    classifyDelivery hands exactly one record to recordAttempt on every path (Dispatcher.attempt_records); runRoute calls it for the
+    items it sends - not for an item whose target the route does not configure, not for an item it does not reach before the stop. *)
+Fixpoint run_records (stop : nat) (its : list item) {struct its} : list (N * attempt_rec) :=
+  match its with
+  | [] => []
+  | it :: tl =>
+      match stop with
+      | O => []
+      | S stop' =>
+          match it_target it with
+          | None => run_records stop' tl
+          | Some rc => map (pair (it_lease it)) (attempt_records rc (it_attempt it) (it_result it) (it_draw it)) ++ run_records stop' tl
+          end
+      end
+  end.
+
+(** the items that are sent: reached before the stop, target configured *)
+Fixpoint sent_items (stop : nat) (its : list item) {struct its} : list item :=
+  match its with
+  | [] => []
+  | it :: tl =>
+      match stop with
+      | O => []
+      | S stop' => match it_target it with None => sent_items stop' tl | Some _ => it :: sent_items stop' tl end
+      end
+  end.
+
+(** the outcome a settlement kind is recorded under *)
+Definition kind_outcome (k : lease_kind) : option outcome :=
+  match k with KAck => Some OAcked | KNack _ => Some ORetry | KDead _ => Some ODead | KExtend _ => None end.
+
+Definition outcome_code (o : outcome) : Z := match o with ORetry => 1 | OAcked => 2 | ODead => 3 end.
+
+Definition enc_record (x : N * attempt_rec) : list Z :=
+  let '(l, r) := x in
+  [Z.of_N l; ar_attempt r; outcome_code (ar_outcome r);
+   match ar_reason r with Some why => Z.of_N (reason_code why) | None => 0 end;
+   match ar_result r with RStatus c => c | RErr _ => 0 end].
+
+(** (max, base, cap), stop, items -> the attempt records, in order *)
+Definition records_case (c : (Z * Z * Z) * Z * list (Z * Z * bool * (Z * Z))) : list (list Z) :=
+  let '(r, stop, xs) := c in
+  let '(mx, b, cp) := r in
+  let rc := {| rc_max := mx; rc_base := b; rc_cap := cp; rc_jitter := 0 |} in
+  map enc_record (run_records (Z.to_nat stop) (map (mk_item rc) xs)).
